@@ -18,8 +18,10 @@ this module derives, independently of each other:
                expressions). It never looks at the projection or at any
                renaming.
 
-Expressions:  ('v', name, [index exprs]) | ('n', k) | ('op', a, b) | ('call', [args])
+Expressions:  ('v', name, [accesses]) | ('n', k) | ('op', a, b) | ('call', [args])
               | ('tern', c, a, b) | ('arr', [es]) | ('neg', e)
+              | ('par', e)       `parallel e` (only as a whole right-hand side / initialiser)
+              an access is an index expression or ('dot', field) for `.field`
               | ('anon', [params], [signals], [input names]|None)   anonymous component
 Statements:   ('decl', kw, [(name, [dims], init|None)])     kw: var | signal | signal input | signal output | component
               ('asg', name, [idx], rhs, form)               form: = <== <-- ==> -->
@@ -37,16 +39,27 @@ def V(name, idx=()):
     return ('v', name, list(idx))
 
 
+def acc_exprs(acc):
+    """The index expressions of an access list (`.field` entries carry no expression)."""
+    return [a for a in acc if a[0] != 'dot']
+
+
+def racc(acc):
+    return "".join(".%s" % a[1] if a[0] == 'dot' else "[%s]" % rexpr(a) for a in acc)
+
+
 def uses_pre(e):
     """Variable names of an expression, left to right (= the visit order)."""
     k = e[0]
     if k == 'v':
         out = [e[1]]
-        for i in e[2]:
+        for i in acc_exprs(e[2]):
             out += uses_pre(i)
         return out
     if k == 'n':
         return []
+    if k == 'par':
+        return uses_pre(e[1])
     if k == 'op':
         return uses_pre(e[1]) + uses_pre(e[2])
     if k == 'neg':
@@ -79,9 +92,11 @@ def has_sugar(x):
 def rexpr(e):
     k = e[0]
     if k == 'v':
-        return e[1] + "".join("[%s]" % rexpr(i) for i in e[2])
+        return e[1] + racc(e[2])
     if k == 'n':
         return str(e[1])
+    if k == 'par':
+        return "parallel %s" % rexpr(e[1])
     if k == 'op':
         return "(%s + %s)" % (rexpr(e[1]), rexpr(e[2]))
     if k == 'neg':
@@ -136,14 +151,14 @@ def _simple_text(s):
     """Text of a substitution-like statement without the `;`."""
     k = s[0]
     if k == 'asg':
-        lhs = s[1] + "".join("[%s]" % rexpr(i) for i in s[2])
+        lhs = s[1] + racc(s[2])
         if s[4] in ("==>", "-->"):
             return "%s %s %s" % (rexpr(s[3]), s[4], lhs)
         return "%s %s %s" % (lhs, s[4], rexpr(s[3]))
     if k == 'opasg':
-        return "%s += %s" % (s[1] + "".join("[%s]" % rexpr(i) for i in s[2]), rexpr(s[3]))
+        return "%s += %s" % (s[1] + racc(s[2]), rexpr(s[3]))
     if k == 'inc':
-        return "%s++" % (s[1] + "".join("[%s]" % rexpr(i) for i in s[2]))
+        return "%s++" % (s[1] + racc(s[2]))
     raise ValueError(k)
 
 
@@ -249,11 +264,11 @@ def pstmt(s, ranges, out):
         for it in items:
             out += it
     elif k == 'asg':
-        out += ["S", s[1]] + _cnt("", _flat(s[2]) + uses_pre(s[3]))[1:]
+        out += ["S", s[1]] + _cnt("", _flat(acc_exprs(s[2])) + uses_pre(s[3]))[1:]
     elif k == 'opasg':
-        out += ["S", s[1]] + _cnt("", _flat(s[2]) + [s[1]] + _flat(s[2]) + uses_pre(s[3]))[1:]
+        out += ["S", s[1]] + _cnt("", _flat(acc_exprs(s[2])) + [s[1]] + _flat(acc_exprs(s[2])) + uses_pre(s[3]))[1:]
     elif k == 'inc':
-        out += ["S", s[1]] + _cnt("", _flat(s[2]) + [s[1]] + _flat(s[2]))[1:]
+        out += ["S", s[1]] + _cnt("", _flat(acc_exprs(s[2])) + [s[1]] + _flat(acc_exprs(s[2])))[1:]
     elif k == 'block':
         out += ["B", str(len(s[1]))]
         for t in s[1]:
@@ -305,7 +320,7 @@ def projection(d, decl_ranges, param_range):
 # --------------------------------------------------------------------------
 
 def resolve(d):
-    """-> dict(occ=[(kind, name, decl)], shadows=[(decl index, shadowed)], ndecl, dup_param)
+    """-> dict(occ=[(kind, name, decl)], shadows=[(decl index, shadowed)], ndecl, dup_param, kw=[keyword per declaration])
     kind: d declaration, t assignment target, u other use. decl: index of the
     declaration (in source order) the occurrence denotes, ('p', i) for a
     parameter, None for a name that is not declared at that point.
@@ -316,6 +331,7 @@ def resolve(d):
         scopes[0].setdefault(p, ('p', i))
     occ, shadows = [], []
     ndecl = [0]
+    kws = []
 
     def lookup(n):
         for sc in reversed(scopes):
@@ -337,6 +353,7 @@ def resolve(d):
             prev = lookup(nm)
             me = ndecl[0]
             ndecl[0] += 1
+            kws.append(kw)
             if prev is not None:
                 shadows.append((me, prev))
             scopes[-1][nm] = me
@@ -351,23 +368,23 @@ def resolve(d):
             declare(s[1], s[2])
         elif k == 'asg':
             use(s[1], 't')
-            for i in s[2]:
+            for i in acc_exprs(s[2]):
                 expr(i)
             expr(s[3])
         elif k == 'opasg':
             use(s[1], 't')
-            for i in s[2]:
+            for i in acc_exprs(s[2]):
                 expr(i)
             use(s[1])
-            for i in s[2]:
+            for i in acc_exprs(s[2]):
                 expr(i)
             expr(s[3])
         elif k == 'inc':
             use(s[1], 't')
-            for i in s[2]:
+            for i in acc_exprs(s[2]):
                 expr(i)
             use(s[1])
-            for i in s[2]:
+            for i in acc_exprs(s[2]):
                 expr(i)
         elif k == 'block':
             scopes.append({})
@@ -424,7 +441,7 @@ def resolve(d):
         if p in params[:i]:
             dup = p
             break
-    return {"occ": occ, "shadows": shadows, "ndecl": ndecl[0], "dup_param": dup}
+    return {"occ": occ, "shadows": shadows, "ndecl": ndecl[0], "dup_param": dup, "kw": kws}
 
 
 # --------------------------------------------------------------------------
@@ -563,7 +580,10 @@ def name_pool(rng):
     return names
 
 
-def rand_def(rng, size, names=None, kind=None, clean=False):
+FIELDS = ["out", "in", "x", "x_0"]      # `.field` after a component (or any) name; never a variable occurrence
+
+
+def rand_def(rng, size, names=None, kind=None, clean=False, maxdepth=4):
     """A random definition with about `size` declarations/uses. `clean`
     restricts to functions in which every variable is initialised where it is
     declared and every use is declared (SSA construction must succeed)."""
@@ -598,8 +618,8 @@ def rand_def(rng, size, names=None, kind=None, clean=False):
         if n is None:
             return num()
         if depth >= 2 or r < 0.45:
-            if not clean and rng.random() < 0.15:
-                return V(n, [expr(vis, depth + 1)])
+            if not clean and rng.random() < 0.18:
+                return V(n, accesses(vis, depth + 1))
             return V(n)
         if r < 0.7:
             return ('op', expr(vis, depth + 1), expr(vis, depth + 1))
@@ -613,6 +633,20 @@ def rand_def(rng, size, names=None, kind=None, clean=False):
             return ('neg', expr(vis, depth + 1))
         return ('arr', [expr(vis, depth + 1), num()]) if not clean else ('op', num(), expr(vis, depth + 1))
 
+    def accesses(vis, depth):
+        """One to three accesses: index expressions and (templates) `.field`s."""
+        out = []
+        for _ in range(rng.choice([1, 1, 2, 2, 3])):
+            if kind == "template" and rng.random() < 0.3:
+                out.append(('dot', rng.choice(FIELDS)))
+            else:
+                out.append(top(expr(vis, min(depth, 2)), 0.05))
+        return out
+
+    def top(e, p=0.08):
+        """A whole expression, now and then under `parallel`."""
+        return ('par', e) if rng.random() < p else e
+
     def simple_assign(vis):
         n = pick(vis)
         if n is None:
@@ -620,12 +654,12 @@ def rand_def(rng, size, names=None, kind=None, clean=False):
         budget[0] -= 1
         c = rng.randrange(6)
         if c == 0:
-            return ('opasg', n, [], expr(vis, 1))
+            return ('opasg', n, accesses(vis, 1) if not clean and rng.random() < 0.15 else [], top(expr(vis, 1)))
         if c == 1:
-            return ('inc', n, [])
+            return ('inc', n, accesses(vis, 1) if not clean and rng.random() < 0.15 else [])
         if c == 2 and not clean:
-            return ('asg', n, [expr(vis, 1)], expr(vis, 1), "=")
-        return ('asg', n, [], expr(vis, 1), "=")
+            return ('asg', n, accesses(vis, 1), top(expr(vis, 1)), "=")
+        return ('asg', n, [], top(expr(vis, 1)), "=")
 
     def block(vis, depth, top=False):
         vis = set(vis)
@@ -652,26 +686,28 @@ def rand_def(rng, size, names=None, kind=None, clean=False):
             for _ in range(1 if rng.random() < 0.85 else 2):
                 n = rng.choice(names)
                 dims = []
-                if not clean and rng.random() < 0.15:
-                    dims = [expr(vis, 1)]
+                if not clean and rng.random() < 0.18:
+                    dims = [top(expr(vis, 1), 0.05) for _ in range(rng.choice([1, 2, 2, 3]))]
                 init = None
                 if kw == "var" and clean:
-                    init = expr(vis - {n}, 1)      # `var n = n` would read the new, unassigned n
+                    init = top(expr(vis - {n}, 1))      # `var n = n` would read the new, unassigned n
                 elif kw == "var" and rng.random() < 0.7:
-                    init = expr(vis, 1)            # may mention n itself (the new binding)
+                    init = top(expr(vis, 1))            # may mention n itself (the new binding)
                 elif kw in ("signal", "signal output") and rng.random() < 0.3:
                     init = expr(vis, 1)
-                elif kw == "component" and rng.random() < 0.5:
-                    init = ('call', [num()])
+                elif kw == "component" and rng.random() < 0.6:
+                    init = ('call', [expr(vis, 1), num()])     # C(args): the arguments are occurrences
+                    if rng.random() < 0.5:
+                        init = ('par', init)                   # component c = parallel C(args)
                 syms.append((n, dims, init))
                 vis.add(n)
             return ('decl', kw, syms)
         if r < 0.50:
             return simple_assign(vis)
         if r < 0.60:
-            return ('log', [expr(vis)])
+            return ('log', [top(expr(vis), 0.04)])
         if r < 0.64:
-            return ('assert', expr(vis))
+            return ('assert', top(expr(vis), 0.04))
         if r < 0.67 and not clean and kind == "template":
             if rng.random() < 0.5:
                 return ('multi', [rng.choice(names), rng.choice(names)], [expr(vis, 1), expr(vis, 1)])
@@ -679,18 +715,18 @@ def rand_def(rng, size, names=None, kind=None, clean=False):
             n = rng.choice(names)
             vis.add(n)
             return ('decl', "signal", [(n, [], anon)])
-        if depth < 4 and budget[0] > 0:
+        if depth < maxdepth and budget[0] > 0:
             if r < 0.72:
                 return braced(vis, depth)
             if r < 0.80:
                 body = braced(vis, depth) if rng.random() < 0.8 else simple_assign(vis)
-                return ('while', expr(vis, 1), body)
+                return ('while', top(expr(vis, 1), 0.04), body)
             if r < 0.90:
                 then = braced(vis, depth) if rng.random() < 0.85 else simple_assign(vis)
                 els = None
                 if rng.random() < 0.5:
                     els = braced(vis, depth) if rng.random() < 0.85 else simple_assign(vis)
-                return ('if', expr(vis, 1), then, els)
+                return ('if', top(expr(vis, 1), 0.04), then, els)
             if r < 0.97:
                 v2 = set(vis)
                 if rng.random() < 0.75:
@@ -715,6 +751,90 @@ def rand_def(rng, size, names=None, kind=None, clean=False):
     body = block(set(params), 0, top=True)
     if kind == "function":
         body.append(('ret', num()))
+    return (kind, "f" if kind == "function" else "T", params, body)
+
+
+# --------------------------------------------------------------------------
+# deep family: nesting > 4 and two-digit suffixes
+# --------------------------------------------------------------------------
+
+DEEP_LOOKALIKES = ["x_10", "x10", "x_11", "x11", "x_1", "x1", "x_9", "x_12", "x12", "x_0", "x0"]
+
+
+def deep_def(rng, clean=True):
+    """A function (or template) with 12..16 declarations of `x` (the 12th is
+    renamed x.10: two-digit suffixes) in blocks nested 5..9 deep and in sibling
+    blocks, next to variables literally called x_10, x10, x_11 .. (the names a
+    key `name_suffix` / `namesuffix` gives the renamed x). Every variable is
+    initialised where it is declared and every use is declared, so the SSA
+    construction must succeed when `clean`; otherwise templates with signals /
+    components among the redeclarations and uses of undeclared names."""
+    kind = "function" if clean or rng.random() < 0.5 else "template"
+    looks = rng.sample(DEEP_LOOKALIKES, 2 + rng.randrange(3))
+    counter = [0]
+
+    def num():
+        counter[0] += 1
+        return ('n', counter[0])
+
+    params = [rng.choice(["x", "a"])] if rng.random() < 0.5 else []
+    body = []
+    vis = list(params)
+    if "x" not in params or rng.random() < 0.5:
+        body.append(('decl', "var", [("x", [], num())]))
+        if "x" not in vis:
+            vis.append("x")
+    for l in looks:
+        body.append(('decl', "var", [(l, [], num())]))
+        vis.append(l)
+    total = [12 + rng.randrange(5)]
+    depth_goal = 5 + rng.randrange(5)
+
+    def use_stmt(vis):
+        a, b = rng.choice(vis), rng.choice(vis)
+        c = rng.randrange(4)
+        if c == 0:
+            return ('asg', a, [], ('op', V(b), V("x")), "=")
+        if c == 1:
+            return ('opasg', a, [], V(b))
+        if c == 2:
+            return ('log', [('op', V(a), V(b))])
+        return ('inc', a, [])
+
+    def wrap(stmts):
+        inner = ('block', stmts)
+        c = rng.randrange(5)
+        if c == 0:
+            return ('while', ('op', V("x"), num()), inner)
+        if c == 1:
+            return ('if', ('op', V(rng.choice(vis)), num()), inner, None)
+        if c == 2:
+            return ('if', num(), inner, ('block', [use_stmt(vis)]))
+        return inner
+
+    def level(d):
+        out = []
+        if total[0] > 0:
+            total[0] -= 1
+            kw = "var"
+            if kind == "template" and rng.random() < 0.3:
+                kw = rng.choice(["signal", "component"])
+            out.append(('decl', kw, [("x", [], num() if kw == "var" else None)]))
+        out.append(use_stmt(vis))
+        if d < depth_goal and total[0] > 0:
+            out.append(wrap(level(d + 1)))
+            out.append(use_stmt(vis))
+        # sibling blocks at this level use up what the chain left over
+        while total[0] > 0 and d <= 1:
+            total[0] -= 1
+            out.append(wrap([('decl', "var", [("x", [], num())]), use_stmt(vis)]))
+        return out
+
+    body += level(1)
+    if not clean and rng.random() < 0.5:
+        body.append(('log', [V("undeclared")]))
+    if kind == "function":
+        body.append(('ret', ('op', V("x"), V(looks[0]))))
     return (kind, "f" if kind == "function" else "T", params, body)
 
 
